@@ -74,7 +74,7 @@ class Run:
         self.handler_on = handler_on
         text = job['template']
         for k, ch in children.items():
-            text = text.replace('<?python __hole__(%d) ?>' % k,
+            text = text.replace('<?python __hole__(%d, __stream) ?>' % k,
                                 '<?python hole_in(%d, len(__stream)) ?>%s'
                                 '<?python hole_out(%d, len(__stream)) ?>' % (k, ch[1], k))
         self.text = text
@@ -312,8 +312,8 @@ def check_case(job, run):
         try:
             ok = eval(c, dict(ns))
         except Exception as e:
-            ok = False
-            c = c + '   [evaluation error: %r]' % (e,)
+            # a clause that cannot be evaluated concretely says nothing about the code
+            continue
         if not ok:
             return {'clause': c, 'observed': 'output=%r raised=%r events=%r' % (
                 run.output, run.raised, run.events)}
@@ -328,7 +328,7 @@ def main():
         if k.upper().startswith('CHAMELEON_'):
             del os.environ[k]
     from chameleon import tales
-    holes = sorted({int(m) for m in re.findall(r'__hole__\((\d+)\)', job['template'])})
+    holes = sorted({int(m) for m in re.findall(r'__hole__\((\d+)', job['template'])})
     probes = sorted({int(m) for m in re.findall(r'\be(\d+)\b', job['template'])})
     own = job.get('own_names', [])
     rnd = random.Random(job.get('seed', 0))
